@@ -113,10 +113,10 @@ class Ctx:
         """cond: z3 Bool; returns the Python bool chosen for this path"""
         if isinstance(cond, bool):
             return cond
-        cond = z3.simplify(cond)
-        if z3.is_true(cond):
+        sc = z3.simplify(cond)       # only to recognise constants; the original term is what gets assumed
+        if z3.is_true(sc):
             return True
-        if z3.is_false(cond):
+        if z3.is_false(sc):
             return False
         if self._replaying():
             d = self.decisions[self.pos]
